@@ -140,8 +140,20 @@ def expect(name, r, exp, shape, msg, args=()):
     return None
 
 
+def segment_corners(rng, nbits=48):
+    """a payload cut into 2-7 segments at random bit positions, each segment all-zero, all-one, equal to 1 or random: several fields of
+    whatever layout applies sit on corners of their ranges at the same time"""
+    cuts = sorted(rng.sample(range(1, nbits), rng.randint(1, 6))) + [nbits]
+    v, prev = 0, 0
+    for cpos in cuts:
+        w = cpos - prev
+        v = (v << w) | rng.choice([0, (1 << w) - 1, 1, rng.getrandbits(w)])
+        prev = cpos
+    return v
+
+
 def cell_payloads(rng, k):
-    return [0, (1 << 48) - 1] + [rng.getrandbits(48) for _ in range(k)]
+    return [0, (1 << 48) - 1] + [rng.getrandbits(48) for _ in range(k)] + [segment_corners(rng) for _ in range(max(2, k // 2))]
 
 
 def enum_cells(ctx):
@@ -154,6 +166,12 @@ def enum_cells(ctx):
                 variants = [(low, None) for low in cell_payloads(rng, k)]
                 if df == 11:  # parity overlay = (CL, IC) code: all-call replies with reserved CL 5-7 and corrupt overlays
                     variants += [(rng.getrandbits(48), ov) for ov in (0, 15, 16, 79, 80, 96, 111, 127, 128, 255, 0x800000)]
+                if tc == 19:  # both velocity fields, the vertical rate and the altitude difference on corners of their ranges at once
+                    for f1 in (0, 1, 2, 1023):
+                        for f2 in (0, 1, 2, 1023):
+                            for vr, dif in ((0, 0), (1, 1), (511, 127), (1, 0)):
+                                variants.append(((rng.getrandbits(5) << 43) | (rng.getrandbits(1) << 42) | (f1 << 32) | (rng.getrandbits(1) << 31) | (f2 << 21) |
+                                                 (rng.getrandbits(2) << 19) | (vr << 10) | (rng.getrandbits(3) << 7) | dif, None))
                 if tc is not None and tc in TC_POS:  # CPR fields that decode to the special latitudes of NL (0, 87, poles) with either parity
                     for latf in (0, 65536, 32768, 131071, 1):
                         for f in (0, 1):
